@@ -180,6 +180,33 @@ impl Monitor for Mon {
                         return Some(Violation::new("negative_free_collateral_after_withdraw", format!("free collateral after a successful WithdrawMargin {} is {}", amount, fc)));
                     }
                 }
+                // the same from the post-state's position and prices, independently of the engine's FreeCollateral answer:
+                // min(margin, margin + pnl) - requirement, pnl = the smaller in magnitude of spot and 15-minute-TWAP PnL,
+                // requirement = floor(initial ratio x open notional (long) / position value (short))
+                if let Some(pr) = pos_ref_m(w, s.post, *v, *t) {
+                    if let Some((pn, n, _)) = pr.chosen() {
+                        let m = S::pos(pr.margin).sub(&pr.funding);
+                        let with_pnl = m.add(&pn);
+                        let min_coll = if pn.is_neg() { with_pnl } else { m };
+                        let basis = if pr.long { pr.notional } else { n };
+                        let req = crate::refmath::fee(basis, s.post.ecfg.initial_margin_ratio.u128(), d);
+                        let fc_ref = min_coll.sub(&S::pos(req));
+                        out.count("withdraw_free_collateral_recomputed");
+                        if fc_ref.is_neg() {
+                            return Some(
+                                Violation::new(
+                                    "negative_free_collateral_after_withdraw",
+                                    format!(
+                                        "after a successful WithdrawMargin {} the free collateral recomputed from the position is {} (margin {}, pnl {}, requirement floor({} x initial ratio {}) = {}); the engine answers {:?}",
+                                        amount, fc_ref, pr.margin, pn, basis, s.post.ecfg.initial_margin_ratio, req, fc
+                                    ),
+                                )
+                                .with("source", "recomputed")
+                                .with("long", pr.long),
+                            );
+                        }
+                    }
+                }
                 if let Some(f0) = &self.pre_fc {
                     if let Some(m) = f0.mag_u128() {
                         if !f0.is_neg() && m.abs_diff(*amount) * 100 <= m.max(1) {
